@@ -2,72 +2,6 @@
 From PegV Require Import Base.Tac Base.ListX Spec.Syntax Spec.Peg Proofs.PegRel Model.Calls Generated.PegPeg Reader.Base Reader.Lex.
 Local Open Scope Z_scope.
 
-Inductive cchar :=
-| KRaw (c : rune)                       (* the character itself *)
-| KEsc (c : rune)                       (* backslash, then c *)
-| KHex (x : rune) (ds : list rune)      (* backslash 0, x or X, hex digits *)
-| KOct (ds : list rune).                (* backslash, one to three octal digits *)
-
-Definition kshow (k : cchar) : list rune :=
-  match k with
-  | KRaw c => [c]
-  | KEsc c => [92; c]
-  | KHex x ds => 92 :: 48 :: x :: ds
-  | KOct ds => 92 :: ds
-  end.
-
-Definition esc_table : list (rune * rune) :=
-  [(97, 7); (65, 7); (98, 8); (66, 8); (101, 27); (69, 27); (102, 12); (70, 12); (110, 10); (78, 10); (114, 13); (82, 13);
-   (116, 9); (84, 9); (118, 11); (86, 11); (39, 39); (34, 34); (91, 91); (93, 93); (45, 45); (92, 92)].
-Definition esc_val (c : rune) : rune :=
-  match find (fun cv => fst cv =? c) esc_table with Some cv => snd cv | None => c end.
-Definition is_esc (c : rune) : bool := existsb (fun cv => fst cv =? c) esc_table.
-
-Definition is_hex (c : rune) : bool := ((48 <=? c) && (c <=? 57)) || ((97 <=? c) && (c <=? 102)) || ((65 <=? c) && (c <=? 70)).
-Definition is_oct (c : rune) : bool := (48 <=? c) && (c <=? 55).
-Definition is_oct03 (c : rune) : bool := (48 <=? c) && (c <=? 51).
-Definition is_alpha (c : rune) : bool := ((97 <=? c) && (c <=? 122)) || ((65 <=? c) && (c <=? 90)).
-
-Definition kvalid (k : cchar) : bool :=
-  match k with
-  | KRaw c => negb (c =? 92)
-  | KEsc c => is_esc c
-  | KHex x ds => ((x =? 120) || (x =? 88)) && match ds with [] => false | _ => forallb is_hex ds end
-  | KOct ds =>
-      match ds with
-      | [a] => is_oct a
-      | [a; b] => is_oct a && is_oct b
-      | [a; b; c] => is_oct03 a && is_oct b && is_oct c
-      | _ => false
-      end
-  end.
-
-(** what must not follow, for the spelling to be read back as written (the digit runs are greedy) *)
-Definition kfollow (k : cchar) (rest : list rune) : bool :=
-  match k with
-  | KHex _ _ => match rest with c :: _ => negb (is_hex c) | [] => true end
-  | KOct [a] =>
-      match rest with
-      | [] => true
-      | c :: r => negb (is_oct c) &&
-                  negb ((a =? 48) && ((c =? 120) || (c =? 88)) && match r with d :: _ => is_hex d | [] => false end)
-      end
-  | KOct [a; b] => if is_oct03 a then match rest with c :: _ => negb (is_oct c) | [] => true end else true
-  | _ => true
-  end.
-
-Definition kcall (dbl : bool) (k : cchar) : call :=
-  match k with
-  | KRaw c => if (dbl && is_alpha c)%bool then (CAddDoubleCharacter, [c]) else (CAddCharacter, [c])
-  | KEsc c => (CAddCharacter, [esc_val c])
-  | KHex _ ds => (CAddHexaCharacter, ds)
-  | KOct ds => (CAddOctalCharacter, ds)
-  end.
-
-(** digit values *)
-Definition hexval (c : rune) : Z := if (48 <=? c) && (c <=? 57) then c - 48 else if (97 <=? c) && (c <=? 102) then c - 87 else c - 55.
-Definition octval (c : rune) : Z := c - 48.
-
 Section Chars.
 Variable buf : list rune.
 Variable penv : nat -> nat -> bool.
